@@ -99,16 +99,24 @@ def gen_bdat_rx(repo):
         (r"while\s*\(\s*\(\s*rlen\s*>\s*0\s*\)\s*&&\s*\(\s*cr\s*!=\s*NULL\s*\)\s*\)\s*\{\s*cr\s*=\s*memchr\(\s*cr\s*,\s*'\\r'\s*,\s*rlen\s*\)\s*;", 'CRLF loop head'),
         (r"while\s*\(\s*\(\s*cr\s*!=\s*NULL\s*\)\s*&&\s*\(\s*cr\[1\]\s*!=\s*'\\n'\s*\)\s*\)\s*\{\s*const\s+ptrdiff_t\s+o\s*=\s*cr\s*-\s*pos\s*;\s*cr\s*=\s*memchr\(\s*cr\s*\+\s*1\s*,\s*'\\r'\s*,\s*rlen\s*-\s*o\s*\)\s*;", 'bare CR skip loop'),
         (r"const\s+ptrdiff_t\s+l\s*=\s*cr\s*-\s*pos\s*\+\s*1\s*;\s*cr\[0\]\s*=\s*'\\n'\s*;\s*WRITE\(\s*pos\s*,\s*l\s*\)\s*;\s*rlen\s*-=\s*l\s*\+\s*1\s*;\s*cr\s*\+=\s*2\s*;\s*pos\s*=\s*cr\s*;", 'CRLF line write'),
-        (r"if\s*\(\s*\(\s*\*more\s*!=\s*'\\0'\s*\)\s*&&\s*lastcr\s*&&\s*!bdaterr\s*\)\s*\{\s*WRITEL\(\s*\"\\r\"\s*\)\s*;\s*lastcr\s*=\s*0\s*;\s*\}\s*if\s*\(\s*\(\s*msgsize\s*>\s*maxbytes\s*\)",
-         'held-back CR written at the end of the LAST chunk, after the read loop (fixes/C19-bdat-rx-trailing-cr.diff)'),
         (r'if\s*\(\s*\(\s*msgsize\s*>\s*maxbytes\s*\)\s*&&\s*!bdaterr\s*\)', 'size limit'),
         (r'if\s*\(\s*\*more\s*&&\s*!bdaterr\s*\)\s*\{\s*if\s*\(\s*queue_envelope\(\s*msgsize\s*,\s*1\s*\)\s*\)\s*goto\s+err_write\s*;\s*return\s+queue_result\(\)\s*;', 'envelope only for LAST without error'),
         (r'if\s*\(\s*bdaterr\s*\)\s*\{\s*if\s*\(\s*queuefd_hdr\s*>=\s*0\s*\)\s*queue_reset\(\)\s*;\s*freedata\(\)\s*;', 'error: queue_reset, freedata'),
     ]:
         if not re.search(pat, fn):
             raise TranslateError('smtp_bdat: %s not found' % what)
-    if re.search(r"pos\[rlen\+\+\]\s*=\s*'\\r'", fn):
-        raise TranslateError('smtp_bdat: the in-buffer re-insertion of a final CR is still present (model is of the repaired code)')
+    # which version: the CR held back at the end of the data is re-inserted inside the read loop (original) or behind it (repaired)
+    inloop = re.search(r"if\s*\(\s*\(\s*\*more\s*!=\s*'\\0'\s*\)\s*&&\s*lastcr\s*&&\s*\(\s*chunksize\s*==\s*0\s*\)\s*\)\s*\{\s*pos\[rlen\+\+\]\s*=\s*'\\r'\s*;\s*\}\s*WRITE\(\s*pos\s*,\s*rlen\s*\)\s*;", fn)
+    after = re.search(r"WRITE\(\s*pos\s*,\s*rlen\s*\)\s*;\s*\}\s*\}\s*if\s*\(\s*\(\s*\*more\s*!=\s*'\\0'\s*\)\s*&&\s*lastcr\s*&&\s*!bdaterr\s*\)\s*\{\s*WRITEL\(\s*\"\\r\"\s*\)\s*;\s*lastcr\s*=\s*0\s*;\s*\}\s*if\s*\(\s*\(\s*msgsize\s*>\s*maxbytes\s*\)", fn)
+    anycr = len(re.findall(r"pos\[rlen\+\+\]", fn))
+    if after and not inloop and anycr == 0:
+        fixed = 'true'
+    elif inloop and not after and anycr == 1:
+        fixed = 'false'
+    else:
+        raise TranslateError('smtp_bdat: handling of a CR held back at the end of the data not recognised')
+    if not re.search(r'WRITE\(\s*pos\s*,\s*rlen\s*\)\s*;', fn):
+        raise TranslateError('smtp_bdat: final WRITE(pos, rlen) not found')
     rel2 = 'lib/netio.c'
     s2 = strip_comments(read(repo, rel2))
     c['RX_LINEBUF'] = one(r'static\s+char\s+lineinbuf\[(\d+)\]\s*;', s2, 'lineinbuf size')
@@ -132,6 +140,7 @@ def gen_bdat_rx(repo):
     for k, v in c.items():
         out += 'Definition %s : nat := %s.\n' % (k, v)
     out += 'Definition RX_LINEBUF_MAX : nat := RX_LINEBUF - 1.\n'
+    out += 'Definition RX_CR_AFTER_LOOP : bool := %s.\n' % fixed
     return out
 
 
